@@ -39,6 +39,10 @@ CONFIGS = [
     dict(name='expath_bare', factor='EXPRESS_PATH naming a directory with a like-named file', expath='bare'),
     dict(name='expath_dot', factor='EXPRESS_PATH naming a directory with a like-named file', expath='dot'),
     dict(name='expath_abs', factor='EXPRESS_PATH naming a directory with a like-named file', expath='abs'),
+    dict(name='mtime_old', factor='time stamp of the input file', mtime=86400 * 400),
+    dict(name='mtime_future', factor='time stamp of the input file', mtime=-86400 * 3),
+    dict(name='tz_east', factor='TZ', tz='AAA-14'),
+    dict(name='tz_west', factor='TZ', tz='BBB+12'),
     dict(name='lc_c', factor='LC_ALL', lc='C'),
     dict(name='lc_utf8', factor='LC_ALL', lc='C.UTF-8'),
     dict(name='lc_posix', factor='LC_ALL', lc='POSIX'),
@@ -102,6 +106,33 @@ END_SCHEMA;
 
 # Deterministic probe of the open finding "scanner names its output directory after the input path":
 # the file lives in .../data/geo/<long name>.exp and is also reachable through a link outside data/.
+# text that is copied into generated files: printf conversions in literals and names must come out as written
+PROBE_PERCENT = """SCHEMA c12_percent_probe;
+CONSTANT
+  fmt : STRING := 'share: %5d%% (%d of %d) at %p %x %ld %10s|';
+END_CONSTANT;
+TYPE pct = REAL;
+WHERE
+  wr1 : (SELF >= 0.0) AND ('100%' <> '%d %d %d %d %d %d');
+END_TYPE;
+ENTITY e;
+  a : pct;
+  b : STRING;
+UNIQUE
+  ur1 : b;
+WHERE
+  wr1 : b <> '%d%d%d%d%d%d%d%d %x %x %x %x %lu %lu %c';
+END_ENTITY;
+FUNCTION f(n : INTEGER) : STRING;
+  RETURN ('%d items, %d%% done, %5.2f %e %g');
+END_FUNCTION;
+RULE r FOR (e);
+WHERE
+  wr1 : SIZEOF(QUERY(x <* e | x.b = '%d %d %d %d')) = 0;
+END_RULE;
+END_SCHEMA;
+"""
+
 PROBE_DATADIR = """SCHEMA c12_scanner_dirname_probe_schema;
 ENTITY point; x : REAL; END_ENTITY;
 END_SCHEMA;
@@ -249,6 +280,12 @@ def run_item(g, it):
                 env['VERIF_C12_PAD_%02d' % i] = 'x' * 2048
         if cfg.get('lc'):
             env['LC_ALL'] = cfg['lc']
+        if cfg.get('tz'):
+            env['TZ'] = cfg['tz']
+        if cfg.get('mtime'):
+            import time as _t
+            when = _t.time() - cfg['mtime']
+            os.utime(inp, (when, when))
         incopy = None
         if cfg.get('expath'):
             decoy = os.path.join(root, 'decoy')
@@ -401,6 +438,7 @@ def workload(chk):
     except ImportError:
         pass
     schemas.append(('probe:bounds', PROBE_BOUNDS, 'c12_bound_probe.exp', ('probe', 'non-literal aggregate bound'), None))
+    schemas.append(('probe:percent', PROBE_PERCENT, 'c12_percent_probe.exp', ('probe', 'printf conversions in schema text'), None))
     for name, text, fname, tags, src in schemas:
         for tool in U.TOOLS:
             if tool == 'exp2python' and 'multi_schema' in tags:
@@ -413,7 +451,7 @@ def workload(chk):
             if quick and 'shipped' in tags:
                 # quick tier, shipped schemas: one LC_ALL value, and for exp2cxx (seconds per run, thousands of files) one
                 # spelling of a relative path; generated schemas and probes always get the whole matrix
-                drop = ('lc_c', 'lc_posix', 'expath_dot', 'expath_abs', 'shim_b', 'env100k') + (('dotted', 'symlink', 'after_other') if tool == 'exp2cxx' else ())
+                drop = ('lc_c', 'lc_posix', 'expath_dot', 'expath_abs', 'shim_b', 'env100k', 'mtime_future', 'tz_west') + (('dotted', 'symlink', 'after_other') if tool == 'exp2cxx' else ())
             names = [c['name'] for c in CONFIGS if c['name'] not in drop]
             if tool == 'exp2cxx' and len(text) > 400000:
                 # the largest inputs: split the matrix over several work items (each with its own base and repeated run)
